@@ -182,7 +182,7 @@ def text_round_trips(eng, desc, durs, meta):
         lines = [f"# comment\n{desc.n_jobs} {desc.n_machines}\n"]
         for job in desc.jobs:
             lines.append(" ".join(f"{desc.machines[o][0]} {durs[o]}" for o in job) + "\n")
-        fd, path = tempfile.mkstemp(suffix=".txt", prefix="taillard_", dir="/dev/shm")
+        fd, path = tempfile.mkstemp(suffix=".txt", prefix="taillard_", dir="/dev/shm" if os.path.isdir("/dev/shm") else None)
         try:
             with os.fdopen(fd, "w") as f:
                 f.writelines(lines)
